@@ -6,6 +6,7 @@ from .. import terms as tm
 from ..mirror import Mirror
 from ..model import AnalysisError
 from .common import ob, need, call_name, count_form, role_of, roles, swap_roles, resolve_ite_free, is_lit, lift_ite
+from . import common
 from .. import symeval
 
 PROP = "C06"
@@ -548,6 +549,7 @@ def rule_amibounds(ctx):
 
 
 RULES = [
+    ("C06.NOOFFSETROUTE", 8, common.shared("c07", "rule_nooffsetroute", "C06.NOOFFSETROUTE")),
     ("C06.AMIBOUNDS", 1, rule_amibounds),
     ("C06.SEGTWIN", 5, rule_segtwin),
     ("C06.CLOSEDWINDOW", 3, rule_closedwindow),
